@@ -144,3 +144,16 @@ Proof.
     + rewrite PG. apply gerr_scx.
     + apply gerr_scx.
 Qed.
+
+(* ---- why the sort key must be an unbounded (order preserving) level --- *)
+
+(* [levels_ok]/[emission_ok_sorted] are about Gate.Level as a natural number.
+   A level stored modulo 2^16 is not order preserving: two gates on one
+   dependent chain, at BFS depth 65535 and 65536, get keys 65535 and 0, so the
+   stable sort would emit the consumer before its producer.  (The harness
+   builds such chains for the GMW target on every run.) *)
+From Coq Require Import NArith.
+
+Lemma level_wrap16_not_monotone :
+  exists a b : N, (a < b)%N /\ ~ ((a mod 65536) < (b mod 65536))%N.
+Proof. exists 65535%N, 65536%N. split; [reflexivity|]. vm_compute. intros H. discriminate H. Qed.
